@@ -90,7 +90,7 @@ def body_trunc(S, spec):
     if use_cut:
         cut = S.scalar("cut", complex_=False)
         if sym:
-            zt.ctl().assume(_re(cut) > 0, "cutoff > 0", light=True)
+            zt.ctl().assume(_re(cut) > 0, "input: cutoff > 0", light=True)
         elif cut <= 0:
             cut = abs(cut) + 0.1
     # reference: the untruncated decomposition the library itself computes (same stub factors by memoisation)
@@ -98,8 +98,8 @@ def body_trunc(S, spec):
     allv = [e for b in s0.blocks.values() for e in b]
     if sym and len(allv) > 1:
         import z3
-        zt.ctl().assume(z3.And(*[_re(a) != _re(b) for a, b in itertools.combinations(allv, 2)]), "singular values pairwise distinct", light=True)
-        zt.ctl().assume(z3.And(*[_re(a) > 0 for a in allv]), "singular values positive", light=True)
+        zt.ctl().assume(z3.And(*[_re(a) != _re(b) for a, b in itertools.combinations(allv, 2)]), "input: singular values pairwise distinct", light=True)
+        zt.ctl().assume(z3.And(*[_re(a) > 0 for a in allv]), "input: singular values positive", light=True)
     # known finding: a cumulative cutoff beyond the total weight keeps everything (sall[-0] wraps around). The situation is
     # made a branch of its own so that exactly those paths are labelled.
     pre = ""
@@ -170,7 +170,7 @@ def body_trunc(S, spec):
     if use_cut and spec.get("mono"):
         cut2 = S.scalar("cut2", complex_=False)
         if sym:
-            zt.ctl().assume(_re(cut2) >= _re(cut), "cut2 >= cut", light=True)
+            zt.ctl().assume(_re(cut2) >= _re(cut), "input: cut2 >= cut", light=True)
         elif cut2 < cut:
             cut2 = cut + abs(cut2)
         pre2 = pre
